@@ -661,6 +661,292 @@ Proof.
 Qed.
 
 (* ------------------------------------------------------------------ *)
+(* EDNS0 options and SVCB parameters at the (code, packed value) level *)
+Definition enc_pair (p : N * bytes * N) : bytes := u16 (pkey p) ++ u16 (lenN (snd (fst p))) ++ snd (fst p).
+
+Lemma enc_pair_nonempty p : enc_pair p <> [].
+Proof. destruct p as [[k b] l]. discriminate. Qed.
+Lemma len_enc_pair p : lenN (enc_pair p) = 4 + lenN (snd (fst p)).
+Proof.
+  destruct p as [[k b] l]. unfold enc_pair, pkey. cbn [fst snd]. rewrite !lenN_app.
+  change (lenN (u16 k)) with 2. change (lenN (u16 (lenN b))) with 2. lia.
+Qed.
+
+Lemma pack_opts_ok l : forall cap out st',
+  pack_opts l cap (st0 out) = Ok st' -> st' = st0 (out ++ concat (map enc_pair l)).
+Proof.
+  induction l as [|[[k b] n] l IH]; intros cap out st' H.
+  - cbn in H. injection H as <-. cbn. now rewrite app_nil_r.
+  - cbn [pack_opts] in H. destruct (cap <? _); [discriminate|]. destruct (cap <? _); [discriminate|].
+    rewrite pemit_st0 in H. apply IH in H. rewrite H. cbn [map concat]. now rewrite <- app_assoc.
+Qed.
+
+Lemma pack_pairs_go_ok l : forall prev cap out st',
+  pack_pairs_go l prev cap (st0 out) = Ok st' -> st' = st0 (out ++ concat (map enc_pair l)).
+Proof.
+  induction l as [|[[k b] n] l IH]; intros prev cap out st' H.
+  - cbn in H. injection H as <-. cbn. now rewrite app_nil_r.
+  - cbn [pack_pairs_go] in H. destruct (k =? prev); [discriminate|].
+    destruct (cap <? _); [discriminate|]. destruct (cap <? _); [discriminate|]. destruct (cap <? _); [discriminate|].
+    rewrite pemit_st0 in H. apply IH in H. rewrite H. cbn [map concat]. now rewrite <- app_assoc.
+Qed.
+
+(* a list already in strictly increasing key order is what the stable sort returns *)
+Lemma ins_pair_last p acc : Forall (fun q => pkey q <= pkey p) acc -> ins_pair p acc = acc ++ [p].
+Proof.
+  induction acc as [|q acc IH]; intro H; [reflexivity|].
+  cbn [ins_pair]. pose proof (Forall_inv H) as Hq. cbn beta in Hq. apply Forall_inv_tail in H.
+  btrue (pkey q <=? pkey p). rewrite IH by exact H. reflexivity.
+Qed.
+Lemma sort_pairs_sorted l : forall lo acc,
+  sorted_from lo (map pkey l) -> Forall (fun q => pkey q < lo) acc ->
+  fold_left (fun acc p => ins_pair p acc) l acc = acc ++ l.
+Proof.
+  induction l as [|p l IH]; intros lo acc Hs Ha; cbn [fold_left]; [now rewrite app_nil_r|].
+  cbn [map sorted_from] in Hs. destruct Hs as [Hlo Hs].
+  rewrite ins_pair_last by (eapply Forall_impl; [|exact Ha]; cbn beta; intros; lia).
+  rewrite (IH (pkey p + 1)); [now rewrite <- app_assoc|exact Hs|].
+  apply Forall_app. split; [eapply Forall_impl; [|exact Ha]; cbn beta; intros; lia|].
+  constructor; [lia|constructor].
+Qed.
+
+(* reading one (code, length, value) triple *)
+Lemma pair_header pre p post :
+  pkey p < 65536 -> lenN (snd (fst p)) < 65536 ->
+  let msg := pre ++ enc_pair p ++ post in
+  lenN msg = lenN pre + (4 + lenN (snd (fst p))) + lenN post /\
+  be (take_at msg (lenN pre) 2) 0 = pkey p /\
+  be (take_at msg (lenN pre + 2) 2) 0 = lenN (snd (fst p)) /\
+  take_at msg (lenN pre + 4) (lenN (snd (fst p))) = snd (fst p).
+Proof.
+  intros Hk Hl msg. destruct p as [[k b] n]. unfold msg, enc_pair, pkey in *. cbn [fst snd] in *.
+  split; [rewrite !lenN_app; cbn [u16 lenN length N.of_nat]; lia|]. split; [|split].
+  - rewrite <- !app_assoc. rewrite take_at_exact' with (b := u16 k) by reflexivity. apply be_u16, Hk.
+  - replace (pre ++ (u16 k ++ u16 (lenN b) ++ b) ++ post) with ((pre ++ u16 k) ++ u16 (lenN b) ++ b ++ post)
+      by (rewrite <- !app_assoc; reflexivity).
+    rewrite take_at_exact' with (b := u16 (lenN b)); [apply be_u16, Hl|rewrite lenN_app; reflexivity|reflexivity].
+  - replace (pre ++ (u16 k ++ u16 (lenN b) ++ b) ++ post) with ((pre ++ u16 k ++ u16 (lenN b)) ++ b ++ post)
+      by (rewrite <- !app_assoc; reflexivity).
+    apply take_at_exact. rewrite !lenN_app. cbn [u16 lenN length N.of_nat]. lia.
+Qed.
+
+Definition opt_ok (p : N * bytes * N) : Prop :=
+  pkey p < 65536 /\ lenN (snd (fst p)) < 65536 /\ opt_view (pkey p) (snd (fst p)) = Some (snd (fst p), snd p).
+Definition svcb_ok (p : N * bytes * N) : Prop :=
+  pkey p < 65536 /\ lenN (snd (fst p)) < 65536 /\ svcb_view (pkey p) (snd (fst p)) = Some (snd (fst p), snd p).
+
+Lemma unpack_opts_exact l : forall fuel pre acc,
+  Forall opt_ok l -> (length l < fuel)%nat ->
+  unpack_opts_go fuel (pre ++ concat (map enc_pair l)) (lenN pre) acc =
+  Ok (acc ++ l, lenN pre + lenN (concat (map enc_pair l))).
+Proof.
+  induction l as [|p l IH]; intros fuel pre acc Hok Hf.
+  - destruct fuel as [|f]; [cbn in Hf; lia|]. cbn [map concat unpack_opts_go]. rewrite !app_nil_r.
+    bfalse (lenN pre <? lenN pre). f_equal. f_equal. rewrite lenN_nil. lia.
+  - destruct fuel as [|f]; [cbn in Hf; lia|]. cbn [map concat unpack_opts_go].
+    pose proof (Forall_inv Hok) as [Hk [Hl Hv]]. apply Forall_inv_tail in Hok.
+    destruct (pair_header pre p (concat (map enc_pair l)) Hk Hl) as [E0 [E1 [E2 E3]]].
+    rewrite E0, E1, E2.
+    btrue (lenN pre <? lenN pre + (4 + lenN (snd (fst p))) + lenN (concat (map enc_pair l))).
+    bfalse (lenN pre + (4 + lenN (snd (fst p))) + lenN (concat (map enc_pair l)) <? lenN pre + 4).
+    bfalse (lenN pre + (4 + lenN (snd (fst p))) + lenN (concat (map enc_pair l)) <? lenN pre + 4 + lenN (snd (fst p))).
+    rewrite E3, Hv.
+    replace (pre ++ enc_pair p ++ concat (map enc_pair l)) with ((pre ++ enc_pair p) ++ concat (map enc_pair l))
+      by (rewrite <- app_assoc; reflexivity).
+    replace (lenN pre + 4 + lenN (snd (fst p))) with (lenN (pre ++ enc_pair p)) by (rewrite lenN_app, len_enc_pair; lia).
+    rewrite IH; [|exact Hok|cbn in Hf; lia].
+    destruct p as [[k b] n]. cbn [pkey fst snd]. rewrite <- app_assoc. cbn [app]. f_equal. f_equal.
+    rewrite !lenN_app. lia.
+Qed.
+
+Lemma unpack_svcb_exact l : forall fuel pre acc lo last,
+  Forall svcb_ok l -> sorted_from lo (map pkey l) -> (Z.of_N lo > last)%Z -> (length l < fuel)%nat ->
+  unpack_svcb_go fuel (pre ++ concat (map enc_pair l)) (lenN pre) last acc =
+  Ok (acc ++ l, lenN pre + lenN (concat (map enc_pair l))).
+Proof.
+  induction l as [|p l IH]; intros fuel pre acc lo last Hok Hs Hlast Hf.
+  - destruct fuel as [|f]; [cbn in Hf; lia|]. cbn [map concat unpack_svcb_go]. rewrite !app_nil_r.
+    bfalse (lenN pre <? lenN pre). f_equal. f_equal. rewrite lenN_nil. lia.
+  - destruct fuel as [|f]; [cbn in Hf; lia|]. cbn [map concat unpack_svcb_go].
+    pose proof (Forall_inv Hok) as [Hk [Hl Hv]]. apply Forall_inv_tail in Hok.
+    cbn [map sorted_from] in Hs. destruct Hs as [Hlo Hs].
+    destruct (pair_header pre p (concat (map enc_pair l)) Hk Hl) as [E0 [E1 [E2 E3]]].
+    rewrite E0, E1, E2.
+    btrue (lenN pre <? lenN pre + (4 + lenN (snd (fst p))) + lenN (concat (map enc_pair l))).
+    bfalse (lenN pre + (4 + lenN (snd (fst p))) + lenN (concat (map enc_pair l)) <? lenN pre + 2).
+    bfalse (lenN pre + (4 + lenN (snd (fst p))) + lenN (concat (map enc_pair l)) <? lenN pre + 2 + 2).
+    bfalse (lenN pre + (4 + lenN (snd (fst p))) + lenN (concat (map enc_pair l)) <? lenN pre + 2 + 2 + lenN (snd (fst p))).
+    replace (lenN pre + 2 + 2) with (lenN pre + 4) by lia.
+    rewrite E3, Hv. bfalse (Z.of_N (pkey p) <=? last)%Z.
+    replace (pre ++ enc_pair p ++ concat (map enc_pair l)) with ((pre ++ enc_pair p) ++ concat (map enc_pair l))
+      by (rewrite <- app_assoc; reflexivity).
+    replace (lenN pre + 4 + lenN (snd (fst p))) with (lenN (pre ++ enc_pair p)) by (rewrite lenN_app, len_enc_pair; lia).
+    rewrite (IH f _ _ (pkey p + 1)); [|exact Hok|exact Hs|lia|cbn in Hf; lia].
+    destruct p as [[k b] n]. cbn [pkey fst snd]. rewrite <- app_assoc. cbn [app]. f_equal. f_equal.
+    rewrite !lenN_app. lia.
+Qed.
+
+Lemma pairs_length (l : list (N * bytes * N)) : (length l <= length (concat (map enc_pair l)))%nat.
+Proof.
+  induction l as [|p l IH]; cbn; [lia|]. rewrite app_length.
+  pose proof (enc_pair_nonempty p). destruct (enc_pair p); [congruence|]. cbn. lia.
+Qed.
+Lemma concat_enc_pair_nil l : concat (map enc_pair l) = [] -> l = [].
+Proof.
+  destruct l as [|p l]; [reflexivity|]. cbn [map concat]. intro E. apply app_eq_nil in E. destruct E as [E _].
+  now apply enc_pair_nonempty in E.
+Qed.
+
+(* ------------------------------------------------------------------ *)
+(* APL prefixes *)
+Definition apl_addr (prefix : N) (ip : bytes) : bytes :=
+  trim_trailing_zeros (takeN ((prefix + 7) / 8) (mask_bytes ip prefix)).
+Definition apl_fam (ip : bytes) : N := if lenN ip =? 4 then 1 else 2.
+Definition enc_apl (p : bool * N * bytes) : bytes :=
+  let '(neg, prefix, ip) := p in
+  u16 (apl_fam ip) ++ u8 prefix ++
+  u8 ((if neg then 128 else 0) + lenN (apl_addr prefix ip) mod 128) ++ apl_addr prefix ip.
+(* the address is what unpacking rebuilds from its own masked, zero-trimmed form *)
+Definition apl_ok (p : bool * N * bytes) : Prop :=
+  let '(neg, prefix, ip) := p in
+  (lenN ip = 4 \/ lenN ip = 16) /\ prefix <= 8 * lenN ip /\
+  pad_right (apl_addr prefix ip) (length ip) = ip.
+
+Lemma mask_bytes_length ip : forall p, length (mask_bytes ip p) = length ip.
+Proof. induction ip as [|b r IH]; intro p; cbn [mask_bytes]; [reflexivity|]. destruct (8 <=? p); cbn [length]; now rewrite IH. Qed.
+
+Lemma tzr_spec l : (trim_zeros_rev l = [] \/ exists x r, trim_zeros_rev l = x :: r /\ x <> 0) /\
+  (length (trim_zeros_rev l) <= length l)%nat.
+Proof.
+  induction l as [|x l [IH1 IH2]]; [split; [now left|cbn; lia]|].
+  destruct x as [|q].
+  - cbn [trim_zeros_rev]. split; [exact IH1|cbn [length]; lia].
+  - cbn [trim_zeros_rev]. split; [right; exists (Npos q), l; split; [reflexivity|discriminate]|lia].
+Qed.
+
+Lemma trim_length l : lenN (trim_trailing_zeros l) <= lenN l.
+Proof.
+  unfold trim_trailing_zeros, lenN. rewrite rev_length.
+  destruct (tzr_spec (rev l)) as [_ H]. rewrite rev_length in H. lia.
+Qed.
+Lemma trim_last_nonzero l : 0 < lenN (trim_trailing_zeros l) ->
+  nthN (trim_trailing_zeros l) (lenN (trim_trailing_zeros l) - 1) 0 <> 0.
+Proof.
+  unfold trim_trailing_zeros. destruct (tzr_spec (rev l)) as [[E|[x [r [E Hx]]]] _]; rewrite E.
+  - cbn. lia.
+  - intros _. cbn [rev]. unfold nthN, lenN. rewrite app_length. cbn [length].
+    rewrite app_nth2 by lia.
+    replace (N.to_nat (N.of_nat (length (rev r) + 1) - 1) - length (rev r))%nat with 0%nat by lia.
+    exact Hx.
+Qed.
+
+Lemma apl_addr_len prefix ip : lenN (apl_addr prefix ip) <= lenN ip.
+Proof.
+  unfold apl_addr. pose proof (trim_length (takeN ((prefix + 7) / 8) (mask_bytes ip prefix))) as H.
+  assert (lenN (takeN ((prefix + 7) / 8) (mask_bytes ip prefix)) <= lenN ip).
+  { unfold lenN, takeN. rewrite firstn_length, mask_bytes_length. lia. }
+  lia.
+Qed.
+
+Lemma pack_apl_prefix_ok p cap out st' : apl_ok p ->
+  pack_apl_prefix p cap (st0 out) = Ok st' -> st' = st0 (out ++ enc_apl p).
+Proof.
+  destruct p as [[neg prefix] ip]. intros [Hlen _] H. unfold pack_apl_prefix in H.
+  assert (Hf : match lenN ip with 4 => Some 1 | 16 => Some 2 | _ => None end = Some (apl_fam ip)).
+  { unfold apl_fam. destruct Hlen as [E|E]; rewrite E; reflexivity. }
+  rewrite Hf in H. clear Hf.
+  inv_bind H. apply pack_fixed_ok in Ha. subst a.
+  inv_bind H. apply pack_fixed_ok in Ha. subst a.
+  inv_bind H. apply pack_fixed_ok in Ha. subst a.
+  apply pack_fixed_ok in H. subst st'. unfold enc_apl, apl_addr. rewrite <- !app_assoc. reflexivity.
+Qed.
+
+Lemma unpack_apl_prefix_exact p pre post : apl_ok p ->
+  unpack_apl_prefix (pre ++ enc_apl p ++ post) (lenN pre) = Ok (p, lenN pre + lenN (enc_apl p)).
+Proof.
+  destruct p as [[neg prefix] ip]. intros [Hlen [Hpre Hpad]].
+  pose proof (apl_addr_len prefix ip) as Hal.
+  set (addr := apl_addr prefix ip) in *.
+  set (nl := (if neg then 128 else 0) + lenN addr mod 128).
+  assert (Hnl : nl < 256) by (unfold nl; destruct neg; lia).
+  assert (Hfam : apl_fam ip < 65536) by (unfold apl_fam; destruct (lenN ip =? 4); lia).
+  unfold unpack_apl_prefix.
+  set (msg := pre ++ enc_apl (neg, prefix, ip) ++ post).
+  assert (Emsg : msg = pre ++ u16 (apl_fam ip) ++ [prefix mod 256] ++ [nl mod 256] ++ addr ++ post).
+  { unfold msg, enc_apl. fold addr. fold nl. unfold u8. rewrite <- !app_assoc. reflexivity. }
+  assert (Hlm : lenN msg = lenN pre + 4 + lenN addr + lenN post).
+  { rewrite Emsg. rewrite !lenN_app. cbn [u16 lenN length N.of_nat]. lia. }
+  rewrite Hlm.
+  bfalse (lenN pre + 4 + lenN addr + lenN post <? lenN pre + 2).
+  assert (E1 : be (take_at msg (lenN pre) 2) 0 = apl_fam ip).
+  { rewrite Emsg. rewrite take_at_exact' with (b := u16 (apl_fam ip)) by reflexivity. now apply be_u16. }
+  rewrite E1.
+  bfalse (lenN pre + 4 + lenN addr + lenN post <? lenN pre + 2 + 1).
+  assert (E2 : nthN msg (lenN pre + 2) 0 = prefix).
+  { rewrite Emsg. rewrite app_assoc. cbn [app]. rewrite nthN_exact; [lia|]. rewrite lenN_app. reflexivity. }
+  rewrite E2.
+  bfalse (lenN pre + 4 + lenN addr + lenN post <? lenN pre + 2 + 1 + 1).
+  assert (E3 : nthN msg (lenN pre + 2 + 1) 0 = nl).
+  { rewrite Emsg. rewrite (app_assoc pre), (app_assoc (pre ++ _)). cbn [app]. rewrite nthN_exact; [lia|].
+    rewrite !lenN_app. reflexivity. }
+  rewrite E3.
+  assert (Eil : (if apl_fam ip =? 1 then Some 4 else if apl_fam ip =? 2 then Some 16 else None) = Some (lenN ip)).
+  { unfold apl_fam. destruct Hlen as [E|E]; rewrite E; reflexivity. }
+  rewrite Eil.
+  bfalse (8 * lenN ip <? prefix).
+  assert (Ea : nl mod 128 = lenN addr) by (unfold nl; destruct neg; lia).
+  rewrite Ea.
+  bfalse (lenN ip <? lenN addr).
+  bfalse (lenN pre + 4 + lenN addr + lenN post <? lenN pre + 2 + 1 + 1 + lenN addr).
+  assert (E4 : take_at msg (lenN pre + 2 + 1 + 1) (lenN addr) = addr).
+  { rewrite Emsg. rewrite (app_assoc pre), (app_assoc (pre ++ _)), (app_assoc ((pre ++ _) ++ _)).
+    apply take_at_exact. rewrite !lenN_app. reflexivity. }
+  rewrite E4.
+  assert (Ez : (0 <? lenN addr) && (nthN addr (lenN addr - 1) 0 =? 0) = false).
+  { destruct (0 <? lenN addr) eqn:Hpos; [|reflexivity]. cbn [andb].
+    pose proof (trim_last_nonzero (takeN ((prefix + 7) / 8) (mask_bytes ip prefix))) as Hn.
+    fold (apl_addr prefix ip) in Hn. fold addr in Hn. specialize (Hn ltac:(lia)). lia. }
+  rewrite Ez.
+  replace (N.to_nat (lenN ip)) with (length ip) by (unfold lenN; lia). rewrite Hpad.
+  f_equal. f_equal.
+  - f_equal. f_equal. unfold nl. destruct neg; lia.
+  - unfold enc_apl. fold addr. rewrite !lenN_app. cbn [u16 u8 lenN length N.of_nat]. lia.
+Qed.
+
+Lemma enc_apl_nonempty p : enc_apl p <> [].
+Proof. destruct p as [[neg prefix] ip]. discriminate. Qed.
+
+Lemma pack_apl_ok l : forall cap out st', Forall apl_ok l ->
+  pack_apl l cap (st0 out) = Ok st' -> st' = st0 (out ++ concat (map enc_apl l)).
+Proof.
+  induction l as [|p l IH]; intros cap out st' Hok H.
+  - cbn in H. injection H as <-. cbn. now rewrite app_nil_r.
+  - pose proof (Forall_inv Hok) as Hp. apply Forall_inv_tail in Hok.
+    cbn [pack_apl] in H. inv_bind H. apply pack_apl_prefix_ok in Ha; [|exact Hp]. subst a.
+    apply IH in H; [|exact Hok]. rewrite H. cbn [map concat]. now rewrite <- app_assoc.
+Qed.
+
+Lemma map_id_pair {A B} (g : A -> B) l : map fst (map (fun d => (d, g d)) l) = l.
+Proof. rewrite map_map. cbn. apply map_id. Qed.
+
+Lemma unpack_apl_exact pre l : Forall apl_ok l ->
+  unpack_apl (pre ++ concat (map enc_apl l)) (lenN pre) = Ok (l, lenN pre + lenN (concat (map enc_apl l))).
+Proof.
+  intro Hok. unfold unpack_apl. rewrite unpack_apl_is_loop.
+  pose (items := map (fun p => (p, enc_apl p)) l).
+  assert (Hi : forall x b, In (x, b) items -> b <> [] /\
+     forall pre post, unpack_apl_prefix (pre ++ b ++ post) (lenN pre) = Ok (x, lenN pre + lenN b)).
+  { intros x b Hin. unfold items in Hin. apply in_map_iff in Hin. destruct Hin as [p [E Hin]].
+    injection E as <- <-. split; [apply enc_apl_nonempty|]. intros. apply unpack_apl_prefix_exact.
+    rewrite Forall_forall in Hok. now apply Hok. }
+  replace (map enc_apl l) with (map snd items) by apply map_snd_pair.
+  rewrite loop_items.
+  - cbn [app]. unfold items. now rewrite map_id_pair.
+  - exact Hi.
+  - apply fuel_items. intros x b Hin. apply (Hi x b Hin).
+Qed.
+
+(* ------------------------------------------------------------------ *)
 (* canonical values, per field kind *)
 Definition str_ok (d : bytes) : Prop := wfb d /\ lenN d <= 255.
 Definition size_agrees (v : rdata) (e : fend) (b : bytes) : Prop :=
@@ -685,7 +971,10 @@ Definition canon (v : rdata) (k : fkind) (x : fval) : Prop :=
   | K_aaaa => exists a, x = V_b a /\ lenN a = 16
   | K_names _ => exists lss, x = V_ss (map show_name lss) /\ Forall (fun ls => valid_wire ls = true) lss
   | K_nsec => exists l, x = V_ns l /\ sorted_from 0 l /\ Forall (fun t => t < 65536) l
-  | _ => False
+  | K_opt => exists l, x = V_pairs l /\ Forall opt_ok l
+  | K_svcb => exists l, x = V_pairs l /\ Forall svcb_ok l /\ sorted_from 0 (map pkey l)
+  | K_apl => exists l, x = V_apl l /\ Forall apl_ok l
+  | K_gateway _ _ _ _ _ => False
   end.
 
 (* the Go zero value of the field: what a record unpacked from a shorter RDATA holds *)
@@ -842,6 +1131,38 @@ Proof.
     exists b. split; [reflexivity|]. split; [intro E; now rewrite (Hz E)|].
     intros pre post got Hpost _. cbn [unpack_field]. cbv zeta.
     rewrite (Hpost eq_refl), app_nil_r, Hu. reflexivity.
+  - (* EDNS0 options *)
+    destruct Hc as [l [-> Hl]]. rewrite Hv in Hp. cbn [as_pairs] in Hp.
+    apply pack_opts_ok in Hp. subst st'.
+    exists (concat (map enc_pair l)). split; [reflexivity|]. split.
+    { intro E. now rewrite (concat_enc_pair_nil l E). }
+    intros pre post got Hpost _. cbn [unpack_field]. cbv zeta.
+    rewrite (Hpost eq_refl), app_nil_r. unfold unpack_opts. rewrite unpack_opts_exact.
+    + reflexivity.
+    + exact Hl.
+    + rewrite app_length. pose proof (pairs_length l). lia.
+  - (* SVCB parameters *)
+    destruct Hc as [l [-> [Hl Hs]]]. rewrite Hv in Hp. cbn [as_pairs] in Hp.
+    unfold pack_svcb, sort_pairs in Hp.
+    rewrite (sort_pairs_sorted l 0 []) in Hp by (exact Hs || constructor). cbn [app] in Hp.
+    apply pack_pairs_go_ok in Hp. subst st'.
+    exists (concat (map enc_pair l)). split; [reflexivity|]. split.
+    { intro E. now rewrite (concat_enc_pair_nil l E). }
+    intros pre post got Hpost _. cbn [unpack_field]. cbv zeta.
+    rewrite (Hpost eq_refl), app_nil_r. unfold unpack_svcb. rewrite (unpack_svcb_exact l _ _ _ 0).
+    + reflexivity.
+    + exact Hl.
+    + exact Hs.
+    + lia.
+    + rewrite app_length. pose proof (pairs_length l). lia.
+  - (* APL *)
+    destruct Hc as [l [-> Hl]]. rewrite Hv in Hp. cbn [as_apl] in Hp.
+    apply pack_apl_ok in Hp; [|exact Hl]. subst st'.
+    exists (concat (map enc_apl l)). split; [reflexivity|]. split.
+    { destruct l as [|p l']; [reflexivity|]. cbn [map concat]. intro E. apply app_eq_nil in E.
+      destruct E as [E _]. now apply enc_apl_nonempty in E. }
+    intros pre post got Hpost _. cbn [unpack_field]. cbv zeta.
+    rewrite (Hpost eq_refl), app_nil_r, unpack_apl_exact by exact Hl. reflexivity.
   - (* list of names *)
     destruct Hc as [lss [-> Hlss]]. rewrite Hv in Hp. cbn [as_ss] in Hp.
     apply pack_names_show in Hp; [|exact Hlss]. subst st'.
@@ -850,4 +1171,98 @@ Proof.
       destruct E as [E _]. now apply wire_name_nonempty in E. }
     intros pre post got Hpost _. cbn [unpack_field]. cbv zeta.
     rewrite (Hpost eq_refl), app_nil_r, unpack_names_exact by exact Hlss. reflexivity.
+Qed.
+
+(* ------------------------------------------------------------------ *)
+(* all kinds, including the IPSECKEY / AMTRELAY gateway union, which assigns two
+   struct fields (address and host) and depends on the gateway type field *)
+Definition knames (f : string) (k : fkind) : list string :=
+  match k with K_gateway _ addrf hostf _ _ => [addrf; hostf] | _ => [f] end.
+Definition kzero (k : fkind) (g : string) : fval :=
+  match k with
+  | K_gateway _ addrf _ _ _ => if String.eqb g addrf then V_b [] else V_s []
+  | _ => zero_of k
+  end.
+Definition depends_on (k : fkind) : option string :=
+  match k with K_gateway tyf _ _ _ _ => Some tyf | _ => sized_by k end.
+
+Definition gateway_ok (ty : N) (a h : bytes) : Prop :=
+  (ty = gw_v4 /\ lenN a = 4 /\ h = []) \/
+  (ty = gw_v6 /\ lenN a = 16 /\ h = []) \/
+  (ty = gw_host /\ a = [] /\ exists ls, h = show_name ls /\ valid_wire ls = true) \/
+  (ty <> gw_v4 /\ ty <> gw_v6 /\ ty <> gw_host /\ a = [] /\ h = []).
+
+(* [field_canon v f k]: the struct field(s) that the pack statement (f, k) reads
+   hold canonical values in v *)
+Definition field_canon (v : rdata) (f : string) (k : fkind) : Prop :=
+  match k with
+  | K_gateway tyf addrf hostf mask _ =>
+    addrf <> hostf /\
+    exists a h, vget v addrf = Some (V_b a) /\ vget v hostf = Some (V_s h) /\
+                gateway_ok (N.land (vget_n v tyf) mask) a h
+  | _ => exists x, vget v f = Some x /\ canon v k x
+  end.
+
+Lemma field_roundtrip_gen v f k k' cap out st' :
+  kind_agree k k' = true -> field_canon v f k ->
+  pack_field v f k cap (st0 out) = Ok st' ->
+  exists b vals, st' = st0 (out ++ b) /\
+    Forall2 (fun g y => vget v g = Some y) (knames f k) vals /\
+    (b = [] -> Forall (fun g => vget v g = Some (kzero k g)) (knames f k)) /\
+    forall pre post got,
+      (to_end k = true -> post = []) ->
+      (forall s, depends_on k = Some s -> vget_n got s = vget_n v s) ->
+      unpack_field got k' (pre ++ b ++ post) (lenN pre) = Ok (vals, lenN pre + lenN b).
+Proof.
+  intros Ha Hc Hp.
+  destruct k; cbn [field_canon] in Hc;
+    try solve [
+      destruct Hc as [x [Hv Hcx]];
+      destruct (field_roundtrip v f _ k' x cap out st' Ha Hv Hcx Hp) as [b [-> [Hz Hu]]];
+      exists b, [x]; split; [reflexivity|]; split; [repeat constructor; exact Hv|];
+      split; [intro E; repeat constructor; cbn [kzero]; rewrite Hv, (Hz E); reflexivity|];
+      intros pre post got Hpost Hdep; apply Hu; assumption ].
+  (* the gateway *)
+  destruct k'; cbn [kind_agree] in Ha; try discriminate Ha.
+  repeat (apply andb_prop in Ha; destruct Ha as [Ha ?]).
+  repeat match goal with H : String.eqb _ _ = true |- _ => apply String.eqb_eq in H end.
+  match goal with H : (_ =? _) = true |- _ => apply N.eqb_eq in H end. subst.
+  destruct Hc as [Hne [a [h [Hva [Hvh Hg]]]]].
+  cbn [pack_field] in Hp. rewrite Hva, Hvh in Hp. cbn [as_b as_s] in Hp.
+  cbn [knames kzero depends_on to_end].
+  assert (Hne' : String.eqb hostf0 addrf0 = false).
+  { destruct (String.eqb_spec hostf0 addrf0); [congruence|reflexivity]. }
+  destruct Hg as [[Ety [Hl ->]]|[[Ety [Hl ->]]|[[Ety [-> [ls [-> Hls]]]]|[N1 [N2 [N3 [-> ->]]]]]]].
+  - rewrite Ety in Hp. cbn [N.eqb gw_v4 Pos.eqb] in Hp. unfold pack_a in Hp. rewrite Hl in Hp.
+    apply pack_fixed_ok in Hp. subst st'.
+    exists a, [V_b a; V_s []]. split; [reflexivity|]. split; [repeat constructor; assumption|].
+    split; [intros ->; discriminate|].
+    intros pre post got _ Hdep. cbn [unpack_field]. rewrite (Hdep _ eq_refl), Ety. cbn [N.eqb gw_v4 Pos.eqb].
+    rewrite unpack_fixed_exact by (symmetry; exact Hl). reflexivity.
+  - rewrite Ety in Hp. cbn [N.eqb gw_v4 gw_v6 Pos.eqb] in Hp. unfold pack_aaaa in Hp. rewrite Hl in Hp.
+    apply pack_fixed_ok in Hp. subst st'.
+    exists a, [V_b a; V_s []]. split; [reflexivity|]. split; [repeat constructor; assumption|].
+    split; [intros ->; discriminate|].
+    intros pre post got _ Hdep. cbn [unpack_field]. rewrite (Hdep _ eq_refl), Ety. cbn [N.eqb gw_v4 gw_v6 Pos.eqb].
+    rewrite unpack_fixed_exact by (symmetry; exact Hl). reflexivity.
+  - rewrite Ety in Hp. cbn [N.eqb gw_v4 gw_v6 gw_host Pos.eqb] in Hp.
+    apply pack_name_show in Hp; [|exact Hls]. subst st'.
+    exists (wire_name ls), [V_b []; V_s (show_name ls)]. split; [reflexivity|].
+    split; [repeat constructor; assumption|].
+    split; [intro E; now apply wire_name_nonempty in E|].
+    intros pre post got _ Hdep. cbn [unpack_field]. rewrite (Hdep _ eq_refl), Ety.
+    cbn [N.eqb gw_v4 gw_v6 gw_host Pos.eqb].
+    rewrite unpack_name_exact by exact Hls. reflexivity.
+  - replace (N.land (vget_n v tyf0) mask0 =? gw_v4) with false in Hp by lia.
+    replace (N.land (vget_n v tyf0) mask0 =? gw_v6) with false in Hp by lia.
+    replace (N.land (vget_n v tyf0) mask0 =? gw_host) with false in Hp by lia.
+    injection Hp as <-.
+    exists [], [V_b []; V_s []]. split; [now rewrite app_nil_r|].
+    split; [repeat constructor; assumption|].
+    split. { intros _. repeat constructor; [now rewrite String.eqb_refl|now rewrite Hne']. }
+    intros pre post got _ Hdep. cbn [unpack_field]. rewrite (Hdep _ eq_refl).
+    bfalse (N.land (vget_n v tyf0) mask0 =? gw_v4).
+    bfalse (N.land (vget_n v tyf0) mask0 =? gw_v6).
+    bfalse (N.land (vget_n v tyf0) mask0 =? gw_host).
+    f_equal. f_equal. rewrite lenN_nil. lia.
 Qed.
